@@ -32,7 +32,9 @@ type MW struct {
 	Fees    map[string][]uint64 // fee set to draw rotations from
 	step    int
 	// NoAmbiguity: honest operations must succeed (fault-free sub-profile)
-	Strict         bool
+	Strict bool
+	// Locks: honest swaps sometimes produce P2PK/HTLC locked proofs, spent later with a witness
+	Locks          bool
 	MPP            bool
 	exactMelt      bool
 	Unknown        map[string]bool // secrets whose state the harness no longer claims to know
@@ -134,6 +136,12 @@ func (m *MW) StepSwap() {
 	if sum > fee && m.T.Chance("swap.under", 1, 5) {
 		under = uint64(m.T.Choose("swap.underby", int(sum-fee)))
 	}
+	// now and then the user swaps into P2PK / HTLC locked secrets it can unlock itself: later
+	// swaps and melts then carry witnesses, which state checks must report (C15)
+	lockKind := 0
+	if m.Locks && m.T.Chance("swap.lock", 1, 3) {
+		lockKind = 1 + m.T.Choose("swap.lockkind", 2)
+	}
 	name := m.name("swap")
 	m.rc.S.BeginEpisode()
 	m.rc.S.Run1(name, m.W.Ext, func() {
@@ -150,9 +158,23 @@ func (m *MW) StepSwap() {
 				return
 			}
 		}
-		outs := m.W.NewOutputs(Split(sum-fee-under), ks.ID)
+		var outs []*HOutput
+		switch lockKind {
+		case 1:
+			outs = m.W.NewLockedOutputs(Split(sum-fee-under), ks.ID, false)
+		case 2:
+			outs = m.W.NewLockedOutputs(Split(sum-fee-under), ks.ID, true)
+		default:
+			outs = m.W.NewOutputs(Split(sum-fee-under), ks.ID)
+		}
 		_, r := m.User.Swap(mint, ins, outs)
 		if r.OK() {
+			if lockKind > 0 {
+				m.rc.S.Probe("swap_to_locked")
+			}
+			if hasWitness(ins) {
+				m.rc.S.Probe("swap_of_locked")
+			}
 			m.Spent[mint] = append(m.Spent[mint], ins...)
 			m.rc.S.Probe("swap_at_boundary")
 			if len(idsOf(ins)) > 1 {
@@ -162,6 +184,15 @@ func (m *MW) StepSwap() {
 			m.W.Book.Violate("C04.honest_rejected", "swap", "honest swap of %d unspent proofs (sum %d, fee %d) rejected: %v", len(ins), sum, fee, r)
 		}
 	})
+}
+
+func hasWitness(ps []*HProof) bool {
+	for _, p := range ps {
+		if p.Witness != "" {
+			return true
+		}
+	}
+	return false
 }
 
 func idsOf(ps []*HProof) map[string]bool {
@@ -672,11 +703,13 @@ func (m *MW) verifyStates(mint string, Ys []string, r *Resp) {
 		return
 	}
 	exp := map[string]string{}
+	wit := map[string]string{}
 	for _, p := range m.User.Purse[mint] {
 		exp[p.Y()] = "UNSPENT"
 	}
 	for _, p := range m.Spent[mint] {
 		exp[p.Y()] = "SPENT"
+		wit[p.Y()] = p.Witness
 	}
 	for _, pm := range m.Pending {
 		if pm.Mint != mint || !pm.Known {
@@ -699,6 +732,14 @@ func (m *MW) verifyStates(mint string, Ys []string, r *Resp) {
 			m.rc.S.Probe("c15_state_compared")
 			if st != want {
 				m.W.Book.Violate("C15.state_wrong", want+"->"+st, "checkstate reports %s for Y %s, harness knows it is %s", st, short(Ys[i]), want)
+			} else if want == "SPENT" {
+				got, _ := sm["witness"].(string)
+				if wit[Ys[i]] != "" {
+					m.rc.S.Probe("c15_witness_compared")
+				}
+				if got != wit[Ys[i]] {
+					m.W.Book.Violate("C15.witness", "checkstate", "spent Y %s reported with witness %q, it was spent with %q", short(Ys[i]), got, wit[Ys[i]])
+				}
 			}
 		} else if len(Ys[i]) == 66 {
 			if _, known := m.knownY(mint, Ys[i]); !known && st != "UNSPENT" {
@@ -899,7 +940,6 @@ func (m *MW) Audit(mint string) AuditResult {
 	var carrier *HProof
 	for _, p := range all {
 		cp := *p
-		cp.Witness = ""
 		fee := m.feeFor(mint, []*HProof{&cp})
 		res.Tried++
 		if cp.Amount > fee {
